@@ -4,6 +4,7 @@ import (
 	"fmt"
 	"os"
 	"sync"
+	"sync/atomic"
 	"time"
 
 	"verif/internal/check"
@@ -50,6 +51,7 @@ func partStepThrough(c *check.Ctx, a *acc, victims []string) {
 		p.Kill()
 	}
 	var mu sync.Mutex
+	var failed atomic.Int32
 	runs, reached, overlapped := 0, 0, 0
 	perVictim := map[string]int{}
 	sites := map[string]bool{}
@@ -63,6 +65,9 @@ func partStepThrough(c *check.Ctx, a *acc, victims []string) {
 			}
 		}()
 		for i := w; i < len(cases); i += workers {
+			if failed.Load() >= 3 {
+				return // the property is violated: three witnesses are enough, the rest would only wait for wedged runs
+			}
 			if p == nil || !p.Alive() {
 				var err error
 				p, err = c.WS.StartLab(bin, sut.LabOpts{Frame: 4 * time.Millisecond, RT: "sched", Name: "step", Locks: stepLocks})
@@ -96,6 +101,9 @@ func partStepThrough(c *check.Ctx, a *acc, victims []string) {
 			}
 			bad := len(res.Findings) > 0 || res.Inconclusive != ""
 			mu.Unlock()
+			if len(res.Findings) > 0 {
+				failed.Add(1)
+			}
 			if bad {
 				p.Kill()
 				p = nil
@@ -177,6 +185,7 @@ func partStepPairs(c *check.Ctx, a *acc, families [][2]string) {
 		}
 	}
 	var mu sync.Mutex
+	var failed atomic.Int32
 	runs, reached, both := 0, 0, 0
 	perFamily := map[string]int{}
 	workers := 12
@@ -188,6 +197,9 @@ func partStepPairs(c *check.Ctx, a *acc, families [][2]string) {
 			}
 		}()
 		for i := w; i < len(cases); i += workers {
+			if failed.Load() >= 3 {
+				return
+			}
 			if p == nil || !p.Alive() {
 				var err error
 				p, err = c.WS.StartLab(bin, sut.LabOpts{Frame: 4 * time.Millisecond, RT: "sched", Name: "pair", Locks: stepLocks})
@@ -217,6 +229,9 @@ func partStepPairs(c *check.Ctx, a *acc, families [][2]string) {
 			}
 			bad := len(res.Findings) > 0 || res.Inconclusive != ""
 			mu.Unlock()
+			if len(res.Findings) > 0 {
+				failed.Add(1)
+			}
 			if bad {
 				p.Kill()
 				p = nil
